@@ -89,17 +89,25 @@ def _worker(arg):
                 rules[region + ':decode:' + type(e).__name__] += 1
                 return
             st['decoded'] += 1
+            second = ''
             try:
                 cs.add_block(b, now)
             except Exception as e:
                 rules[region + ':' + type(e).__name__ + ':' + str(e)[:28]] += 1
-                return
+                # a refusal must not depend on it being the first presentation: the same bytes, decoded afresh, again
+                st['presented_twice'] += 1
+                try:
+                    b = Block.deserialize(mut)
+                    cs.add_block(b, now)
+                except Exception:
+                    return
+                second = ' when presented a second time (it was refused the first time)'
             st['accepted'] += 1
             if len(bad) < 5:
                 same = b.hash() == enc.sha256d(raw[:hdr_len])
-                bad.append(('mutant-accepted', "block %s (%d bytes): %s gives %s" % (
+                bad.append(('mutant-accepted' + ('-on-second-presentation' if second else ''), "block %s (%d bytes): %s gives %s%s" % (
                     '/'.join(p), len(raw), desc, "an acceptable block with the SAME id and different content" if same
-                    else "another acceptable block"), kind, p, desc))
+                    else "another acceptable block", second), kind, p, desc))
         ba = bytearray(raw)
         for i in range(len(raw)):
             region = 'header' if i < hdr_len else 'txs'
